@@ -80,11 +80,12 @@ class Patches:
 
         indexing = self.base.indexing
 
+        # Number of voxels per patch: ceil(num_voxels / num_patches), evaluated in integer
+        # arithmetic. NOTE: Evaluating the same ratio via metric lengths, i.e.,
+        # ceil((dimension / num_patches) / voxel_size), is prone to round-off errors
+        # (e.g. 18 voxels in 6 patches with dimension 1.05 resulted in 4 instead of 3).
         patch_dimensions_voxels = [
-            self.base.coordinatesystem.num_voxels(
-                length=patch_dimensions_metric[i],
-                axis=darsia.to_cartesian_indexing(i, indexing),
-            )
+            -(-self.base.num_voxels[i] // self.num_patches[i])
             for i in range(self.num_active_spatial_axes)
         ]
 
